@@ -1413,6 +1413,10 @@ func (w *responseWriter) flushHeaders() {
 	// we ignore anything already written to the buffer.
 	if w.buf != nil && !hasErr {
 		w.Header().Set("Content-Length", strconv.Itoa(w.buf.Len()))
+	} else {
+		// The length the handler declared has been taken out when its head was
+		// processed. What it has put there since does not describe what follows.
+		w.Header().Del("Content-Length")
 	}
 	// TODO: At this point, if the server was gRPC but the client is not, we may have "Trailer"
 	//       headers reserving the use of various metadata keys in trailers. It would be
